@@ -134,17 +134,14 @@ Lemma S_kernel_fsm_done_pulse :
 Proof. exact vk_done_pulse. Qed.
 
 Lemma S_axi2clk_fsm_pulse_train :
-  forall cw (n : nat) ins, 0 <= cw -> (1 <= n)%nat -> Z.of_nat n < 2 ^ cw -> length ins = (2 * n + 2)%nat ->
-  a2c_trace cw (a2c_idle 0) ((true, Z.of_nat n) :: ins) = a2c_expected n.
+  forall cw (n : nat) c ins, 0 <= cw -> (1 <= n)%nat -> Z.of_nat n < 2 ^ cw -> length ins = (2 * n + 2)%nat ->
+  a2c_trace cw (a2c_idle c) ((true, Z.of_nat n) :: ins) = a2c_expected n.
 Proof. exact a2c_pulse_train. Qed.
 
 Lemma S_axi2clk_fsm_back_to_back :
-  if a2c_clears_on_handshake
-  then forall cw (n : nat) c ins, 0 <= cw -> (1 <= n)%nat -> Z.of_nat n < 2 ^ cw -> length ins = (2 * n + 2)%nat ->
-       a2c_trace cw (a2c_idle c) ((true, Z.of_nat n) :: ins) = a2c_expected n
-  else let first := (true, 2) :: repeat (false, 0) 5 in
-       let second := (true, 1) :: repeat (false, 0) 10 in
-       a2c_trace 8 (a2c_idle 0) (first ++ [(false, 0)]) = a2c_expected 2 /\
-       skipn 7 (map fst (a2c_trace 8 (a2c_idle 0) (first ++ second))) = [1; 0; 1; 0; 1; 0; 1; 0; 1; 0] /\
-       Forall (fun p => snd p = 0) (skipn 6 (a2c_trace 8 (a2c_idle 0) (first ++ second))).
+  forall cw (n1 n2 : nat) c ins1 ins2,
+  0 <= cw -> (1 <= n1)%nat -> (1 <= n2)%nat -> Z.of_nat n1 < 2 ^ cw -> Z.of_nat n2 < 2 ^ cw ->
+  length ins1 = (2 * n1 + 1)%nat -> length ins2 = (2 * n2 + 2)%nat ->
+  a2c_trace cw (a2c_idle c) ((true, Z.of_nat n1) :: ins1 ++ (true, Z.of_nat n2) :: ins2) =
+  (0, 0) :: concat (repeat [(1, 0); (0, 0)] n1) ++ [(0, 1)] ++ a2c_expected n2.
 Proof. exact a2c_back_to_back. Qed.
